@@ -37,6 +37,9 @@ structure FoldSt where
   inUse : Bool := false
   /-- chart tables of the schema versions inserted so far (from the ops' oracles) -/
   charts : List (String × List (String × Meta)) := []
+  /-- the request that created the log carrying each idempotency key (clock, dry-run
+      flag and schema version removed: they are not part of the hashed input) -/
+  ikOps : List (String × String) := []
 
 def opTag (inp : Json) : String := optStrField inp "k"
 
@@ -101,6 +104,13 @@ def specCheck (charts : List (String × List (String × Meta))) (real : Tables) 
     | some x => if x != m then fails := fails ++ [("C17", s!"transaction {id}: metadata differs from the fold of the journal")]
     | none => fails := fails ++ [("C17", s!"transaction {id} is not in the journal")]
   pure fails
+
+/-- The hashed part of a request, as text. -/
+def inputKey (inp : Json) : String :=
+  match inp with
+  | .obj kvs => (Json.mkObj (kvs.foldl (fun acc k v =>
+      if k = "now" || k = "dry" || k = "sv" then acc else (k, v) :: acc) [])).compress
+  | j => j.compress
 
 def stepHist (strict : Bool) (fs : FoldSt) (inp out : Json) : Except String FoldSt := do
   if fs.mismatch.isSome then return { fs with i := fs.i + 1 } else
@@ -168,7 +178,8 @@ def stepHist (strict : Bool) (fs : FoldSt) (inp out : Json) : Except String Fold
   if ik ≠ "" then
     match fs.real.logs.find? (fun e => jsonStr e.2 "ik" == ik) with
     | some (_, l) =>
-      if jsonStr l "ih" == optStrField out "ih" then
+      -- same input = same request (independently of any hash), or equal hashes
+      if fs.ikOps.lookup ik == some (inputKey inp) || jsonStr l "ih" == optStrField out "ih" then
         if !(rHit && !failed && optField resp "log" == some l && deltaEmpty delta) then
           pf := pf ++ [("C13", fs.i, "same key + same input did not return the original log as a hit without effect")]
       else if !(rErr == "invalid-idempotency-input" && deltaEmpty delta) then
@@ -198,7 +209,8 @@ def stepHist (strict : Bool) (fs : FoldSt) (inp out : Json) : Except String Fold
   let tag := opTag inp ++ ":" ++ (if failed then rErr else if rHit then "hit" else if dry then "dry" else "ok")
   let committedTx := fs.committedTx + (if !failed && !dry && !rHit && (opTag inp).startsWith "create" then 1 else 0)
   return { fs with state := o.state, real := real', i := fs.i + 1, tags := fs.tags ++ [tag], propFail := pf,
-                   sigs := sigs, committedTx := committedTx, inUse := inUse', charts := charts }
+                   sigs := sigs, committedTx := committedTx, inUse := inUse', charts := charts,
+                   ikOps := if effective && ik ≠ "" then fs.ikOps ++ [(ik, inputKey inp)] else fs.ikOps }
 
 def dedup (l : List String) : List String := l.foldl (fun acc x => if acc.contains x then acc else acc ++ [x]) []
 
@@ -236,7 +248,7 @@ def faultOfJson (j : Json) : Except String (Option Fault × Bool) := do
             else if kind = "deadlock" then pure FaultKind.deadlock
             else if kind = "cancel" then pure FaultKind.cancel
             else throw s!"unknown fault kind {kind}")
-  pure (some { at_ := k, kind := fk }, false)
+  pure (some { at_ := k, kind := fk }, boolFieldD j "andCommit")
 
 /-- The store call a real trace entry names (second word). -/
 def entryMethod (e : String) : String :=
@@ -298,7 +310,9 @@ def handleFault : Handler := fun inp out => do
     let fk := optStrField fj "kind"
     if rErr ≠ "" && !deltaEmpty delta then
       fails := fails ++ [s!"{label}: failed write changed the snapshot"]
-    if didFire && fk = "commit" && rErr = "" then
+    if boolFieldD opIn "dry" && !deltaEmpty delta then
+      fails := fails ++ [s!"{label}: dry-run write changed the snapshot"]
+    if didFire && (fk = "commit" || boolFieldD fj "andCommit") && rErr = "" && !boolFieldD opIn "dry" then
       fails := fails ++ [s!"{label}: COMMIT failed but the write answered success"]
     if didFire && (fk = "error" || fk = "cancel") && rErr = "" && !boolFieldD opIn "dry" then
       -- a non-retryable failure may only be swallowed when it hit a Rollback
@@ -307,7 +321,7 @@ def handleFault : Handler := fun inp out => do
         (e.endsWith "!injected" || e.endsWith "!canceled"))
       if !(hit.all (fun e => entryMethod e = "Rollback")) then
         fails := fails ++ [s!"{label}: store failure swallowed"]
-    if didFire && fk = "deadlock" && rErr = "deadlock" then
+    if didFire && fk = "deadlock" && !boolFieldD fj "andCommit" && rErr = "deadlock" then
       -- a deadlock is retried unless it hit BeginTX, the idempotency-key read, or Commit
       let tr ← strArrField real "trace"
       let hit := (tr.filter (·.endsWith "!deadlock")).map entryMethod
@@ -315,7 +329,7 @@ def handleFault : Handler := fun inp out => do
         fails := fails ++ [s!"{label}: deadlock inside the operation was not retried"]
     let disc := traceDiscipline (← strArrField real "trace")
     if disc ≠ "" then fails := fails ++ [s!"{label}: handle discipline: {disc}"]
-    tags := tags ++ [s!"{fk}:" ++ (if !didFire then "not-reached" else if rErr = "" then "ok" else rErr)]
+    tags := tags ++ [s!"{fk}{if boolFieldD fj "andCommit" then "+commit" else ""}{if boolFieldD opIn "dry" then "/dry" else ""}:" ++ (if !didFire then "not-reached" else if rErr = "" then "ok" else rErr)]
   let sel (p : String) : Bool := want = "" || p = want
   let selFails := if sel "C07" then fails else []
   pure { model := match mismatch with | some m => m.toJson | none => Json.null,
